@@ -100,25 +100,27 @@ Definition tzstr_of_res (p : res (option tzres)) (posix_offset : bool) : res zon
   | Ok (Some r) =>
       if r.(r_unused) then Err EValue
       else
-        let flip := abbr_is_gmt_utc r.(r_stdabbr) && negb posix_offset in
-        match (if flip then match r.(r_stdoffset) with None => None | Some v => Some (Some (v * -1)) end
-               else Some r.(r_stdoffset)) with
-        | None => Err EType                      (* None *= -1 *)
-        | Some stdoffset =>
-            rbind (tzrange_init r.(r_stdabbr) stdoffset r.(r_dstabbr) r.(r_dstoffset) AFalse AFalse)
-            (fun z =>
-              if negb (truthy_str r.(r_dstabbr)) then
-                Ok (mkZone z.(z_std_abbr) z.(z_dst_abbr) z.(z_std_off) z.(z_dst_off) DNone DNone false)
+        (* if res.stdabbr in ("GMT","UTC") and not posix_offset and res.stdoffset is not None:
+               res.stdoffset *= -1                      (code after fix edf5097) *)
+        let stdoffset :=
+          match r.(r_stdoffset) with
+          | None => None
+          | Some v => if abbr_is_gmt_utc r.(r_stdabbr) && negb posix_offset then Some (v * -1)
+                      else Some v
+          end in
+        rbind (tzrange_init r.(r_stdabbr) stdoffset r.(r_dstabbr) r.(r_dstoffset) AFalse AFalse)
+        (fun z =>
+          if negb (truthy_str r.(r_dstabbr)) then
+            Ok (mkZone z.(z_std_abbr) z.(z_dst_abbr) z.(z_std_off) z.(z_dst_off) DNone DNone false)
+          else
+            rbind (tzstr_delta z.(z_std_off) z.(z_dst_off) r.(r_start) false) (fun sd =>
+              if rd_bool sd then
+                rbind (tzstr_delta z.(z_std_off) z.(z_dst_off) r.(r_end) true) (fun ed =>
+                  Ok (mkZone z.(z_std_abbr) z.(z_dst_abbr) z.(z_std_off) z.(z_dst_off)
+                             (DRd sd) (DRd ed) true))
               else
-                rbind (tzstr_delta z.(z_std_off) z.(z_dst_off) r.(r_start) false) (fun sd =>
-                  if rd_bool sd then
-                    rbind (tzstr_delta z.(z_std_off) z.(z_dst_off) r.(r_end) true) (fun ed =>
-                      Ok (mkZone z.(z_std_abbr) z.(z_dst_abbr) z.(z_std_off) z.(z_dst_off)
-                                 (DRd sd) (DRd ed) true))
-                  else
-                    Ok (mkZone z.(z_std_abbr) z.(z_dst_abbr) z.(z_std_off) z.(z_dst_off)
-                               (DRd sd) DFalse false)))
-        end
+                Ok (mkZone z.(z_std_abbr) z.(z_dst_abbr) z.(z_std_off) z.(z_dst_off)
+                           (DRd sd) DFalse false)))
   end.
 
 Definition tzstr_init (s : list Z) (posix_offset : bool) : res zone :=
